@@ -1,5 +1,7 @@
 import GV.Model.Handshake
 import GV.Lib.VersionTable
+import GV.Proofs.VersionData
+import GV.Gen.HandshakeSends
 /-!
 C19 — A client never settles on a version it did not offer.
 
@@ -154,6 +156,72 @@ theorem C19_witness :
   rw [hq]; simp
 
 theorem C19_full_false : ¬ C19_full := fun h => C19_witness (h _ _ _)
+
+/-! ### the version number on the wire -/
+
+/-- **The wire number itself must be a proposed version.** If the version item of the acceptance
+    is an unsigned integer `n` (any head width, also a bignum or tagged integer) and the
+    handshake completes, then it completes with exactly `n`, `n` fits 16 bits and `n` was
+    proposed — a wider number is never narrowed to a proposed version. -/
+theorem wire_version_literal (lk : Lookup) (C : VMap) (ver data : Bytes) (n v' : Nat) (d : VData)
+    (hn : readTagged (ver.length + 1) ver = some (Item.uint n, []))
+    (h : clientReceiveAccept lk C ver data = .finished v' d) :
+    n = v' ∧ n < 65536 ∧ v' ∈ keys C := by
+  unfold clientReceiveAccept at h
+  split at h
+  · simp at h
+  · unfold decodeU16 at h
+    rw [hn] at h
+    simp only [asU16] at h
+    by_cases hlt : n < 65536
+    · simp only [hlt, ↓reduceIte] at h
+      obtain ⟨hv, hk, _⟩ := finish_only_proposed lk C n data v' d h
+      exact ⟨hv.symm, hlt, hv ▸ hk⟩
+    · simp [hlt] at h
+
+/-- An acceptance whose version number does not fit 16 bits always fails — whatever its low 16
+    bits are, whatever data comes with it (for every head width that can carry it). -/
+theorem wide_version_fails (lk : Lookup) (C : VMap) (data : Bytes) (n : Nat)
+    (hw : 65536 ≤ n) (h64 : n < 18446744073709551616) :
+    ∃ why, clientReceiveAccept lk C (encodeUint n) data = .err why := by
+  have hn : readTagged ((encodeUint n).length + 1) (encodeUint n) = some (Item.uint n, []) := by
+    have := GV.Proofs.VersionData.readTagged_encodeUint (encodeUint n).length n h64 []
+    simpa using this
+  unfold clientReceiveAccept
+  split
+  · exact ⟨_, rfl⟩
+  · unfold decodeU16
+    rw [hn]
+    have : ¬ n < 65536 := by omega
+    simp only [asU16, this, ↓reduceIte]
+    exact ⟨_, rfl⟩
+
+/-- Regenerated tie (go/ast of protocol/handshake on every run): the version fields of the
+    handshake messages and refusal errors are 16-bit, the FinishedFunc callback takes a uint16,
+    and handleAcceptVersion contains no integer conversion (so no narrowing), one lookup in the
+    proposed map, one magic comparison and one FinishedFunc call. -/
+theorem version_fields_are_uint16 :
+    (∀ e ∈ [("MsgAcceptVersion", "Version", "uint16"),
+            ("MsgProposeVersions", "VersionMap", "map[uint16]cbor.RawMessage"),
+            ("MsgQueryReply", "VersionMap", "map[uint16]cbor.RawMessage"),
+            ("VersionMismatchError", "SupportedVersions", "[]uint16"),
+            ("DecodeError", "Version", "uint16"), ("RefusedError", "Version", "uint16")],
+        e ∈ GV.Gen.HandshakeSends.fieldTypes) ∧
+    GV.Gen.HandshakeSends.finishedFuncType = "func(CallbackContext, uint16, protocol.VersionData) error" ∧
+    GV.Gen.HandshakeSends.clientAcceptIntConversions = 0 ∧
+    GV.Gen.HandshakeSends.clientAcceptLooksUpProposed = 1 ∧
+    GV.Gen.HandshakeSends.clientAcceptMagicComparisons = 1 ∧
+    GV.Gen.HandshakeSends.clientAcceptFinishCalls = 1 := by
+  decide
+
+/-- Non-vacuity: 2^16 + 13 in a 4-byte head, sent to an initiator that proposed 13, fails. -/
+example : clientReceiveAccept GV.Lib.VersionTable.lk [(13, genEntry .ntn13 1 true false false)]
+    (encodeUint 65549) [0x84, 0x01, 0xf4, 0x00, 0xf4] = .err "decode" := by decide
+
+/-- … and the same data with the literal 13 in an 8-byte head completes. -/
+example : clientReceiveAccept GV.Lib.VersionTable.lk [(13, genEntry .ntn13 1 true false false)]
+    [27, 0, 0, 0, 0, 0, 0, 0, 13] [0x84, 0x01, 0xf4, 0x00, 0xf4] =
+    .finished 13 { kind := .ntn13, magic := 1, dm := false, ps := 0, q := false } := by decide
 
 /-- The defect that was repaired, on the regenerated tables: an NtC initiator with the mainnet
     magic that proposed the whole NtC table, answered `AcceptVersion 13 [42,false,0,false]`.
